@@ -80,10 +80,16 @@ def main():
     t_model = time.time()
     if ok_make and idx:
         try:
-            got = [mod.model_term(cases[i], results[i]) for i in idx]
-            want = [lib.to_obs(results[i]["obs"]) for i in idx]
-            bad = lib.coq_eval(pid, mod.IMPORTS, got, want, shard=getattr(mod, 'SHARD', 400))
-            corr_bad = [idx[b] for b in bad]
+            imports_of = getattr(mod, "imports_of", lambda c: mod.IMPORTS)
+            groups = {}
+            for i in idx:
+                groups.setdefault(imports_of(cases[i]), []).append(i)
+            for gi, (imp, members) in enumerate(sorted(groups.items())):
+                got = [mod.model_term(cases[i], results[i]) for i in members]
+                want = [lib.to_obs(results[i]["obs"]) for i in members]
+                bad = lib.coq_eval(pid, imp, got, want, shard=getattr(mod, 'SHARD', 400), tag=f"cases{gi}")
+                corr_bad += [members[b] for b in bad]
+            corr_bad.sort()
         except lib.CoqError as e:
             corr_err = str(e)
     t_model = time.time() - t_model
@@ -104,8 +110,8 @@ def main():
     for i in unexplained[:3]:
         detail = {"correspondence": "model and implementation observations differ",
                   "implementation_obs": results[i].get("obs"),
-                  "model_obs": lib.coq_show(mod.IMPORTS, mod.model_term(cases[i], results[i])),
-                  "coq_definitions": mod.IMPORTS}
+                  "model_obs": lib.coq_show(getattr(mod, "imports_of", lambda c: mod.IMPORTS)(cases[i]), mod.model_term(cases[i], results[i])),
+                  "coq_definitions": getattr(mod, "imports_of", lambda c: mod.IMPORTS)(cases[i])}
         rep.violation("correspondence", cases[i], detail, matcher, no_input=not found_input)
     if corr_err:
         rep.violation("correspondence", None, {"coq_error": corr_err[-3000:], "names": mod.IMPORTS}, None, no_input=not found_input)
